@@ -34,6 +34,7 @@ class Contract:
         self.hints = []           # (anchor_text, position 'before'|'after', text)
         self.closure_specs = []   # (anchor_text, text) : clauses inserted after a closure's parameter list
         self.rewrites = []        # names of rewrite rules to apply (X3, X4)
+        self.substs = []          # (rule, text, replacement): anchored textual substitutions (typed closure headers, X16)
         self.mode = 'verify'      # or 'assume' (external_body; X7)
         self.used = False
 
@@ -86,6 +87,12 @@ def parse_contracts(path):
             if not m: raise LostAnchor('%s:%d bad @closure_wrap' % (path, ln))
             hint = [(m.group(1), m.group(2)), 'wrap', []]
             cur.closure_specs.append(hint); section = None
+        elif line.startswith('@subst '):
+            # @subst <rule> "<text as it stands (white space insensitive, exactly one occurrence)>" => "<replacement>"
+            m = re.match(r'@subst (\w+) "(.*)" => "(.*)"$', line)
+            if not m: raise LostAnchor('%s:%d bad @subst' % (path, ln))
+            cur.substs.append((m.group(1), m.group(2), m.group(3)))
+            section = None; hint = None
         elif line == '@end':
             cur = None; section = None; hint = None
         elif hint is not None:
@@ -308,7 +315,20 @@ def insert_loop_contracts(fn, body, contract, out_clause_sink):
         if o >= ordinal: raise LostAnchor('%s: loop %d not found' % (fn, o))
     return chunks
 
+def apply_substs(fn, body, contract, log):
+    """@subst: the text must occur exactly once (white space insensitive); it is replaced verbatim. Used for what a ghost
+    insertion cannot express: a closure parameter's type (X12) and the eta-expansion `Some` -> `|x| Some(x)` (X16)."""
+    for rule, old, new in contract.substs:
+        rx = re.compile(r'\s*'.join(re.escape(tok) for tok in re.findall(r'\w+|[^\w\s]', old)))
+        ms = list(rx.finditer(body))
+        if len(ms) != 1:
+            raise LostAnchor('%s: @subst anchor %r occurs %d times' % (fn, old, len(ms)))
+        body = body[:ms[0].start()] + new + body[ms[0].end():]
+        log.append({'rule': rule, 'fn': fn, 'what': '%r -> %r' % (old, new)})
+    return body
+
 def apply_hints(fn, body, contract, log):
+    body = apply_substs(fn, body, contract, log)
     for anchor, pos, text in contract.hints:
         if body.count(anchor) != 1:
             raise LostAnchor('%s: hint anchor %r occurs %d times' % (fn, anchor, body.count(anchor)))
@@ -650,7 +670,9 @@ def emit_generated_module(out, src, lo, hi, modpath, contracts, relfile, indent=
             if '(|| {' in it.body or '(||{' in it.body:
                 out.log.append({'rule': 'X8', 'fn': (modpath + '::' if modpath else '') + name, 'what': 'not extracted: rule wrapper (closure capturing &mut global: outside Verus)'})
                 continue
-            if '.choice(|' in it.body or '.and_then(|' in it.body or '.or_else(|' in it.body:
+            key = (relfile, modpath or '-', name)
+            has_typed_closures = key in contracts and contracts[key].substs and '.choice(|' not in it.body and '.and_then(|' not in it.body
+            if ('.choice(|' in it.body or '.and_then(|' in it.body or '.or_else(|' in it.body) and not has_typed_closures:
                 out.log.append({'rule': 'X8', 'fn': (modpath + '::' if modpath else '') + name, 'what': 'not extracted: closure capturing &mut global or the moved state (choice / whitespace / optional template)'})
                 continue
             sub = Item(src, it.start, it.end, it.attrs_end, it.header_end, it.body_open, it.body_close)
